@@ -3,7 +3,7 @@
    once, acceptance judged against what was announced), holds_C14 (accepted completions
    carry an announced identifier), holds_C20 and holds_C17 (every registered function /
    attached observer is told every notification once, in order).  Proof file. *)
-From PFDL Require Import RefSem RunCase Monitors RefBase RefClosure RefShape RefC01 RefC08 RefC07.
+From PFDL Require Import RefSem RunCase Monitors RefBase RefClosure RefShape RefC01 RefC08 RefC07 Examples.
 From Coq Require Import Lia Permutation.
 
 (* ===================================================================== *)
@@ -911,3 +911,314 @@ Proof.
   intros orc imm body f cs tr H. eapply life_calls_nodup; [apply WL_life0|].
   exact (C07_ref orc imm body f cs tr H).
 Qed.
+
+(* ===================================================================== *)
+(* 8. C20 / C17: the grouping monitors on rendered logs                    *)
+(* ===================================================================== *)
+Definition notifs_of (evs : list aev) : list notif :=
+  flat_map (fun a => match a with ANot n _ _ => [n] | AQ _ _ => [] end) evs.
+
+Lemma ee_render : forall ls obs evs,
+    lst_all ls -> map fst (ee_notifs (flat_map (render ls obs) evs)) = notifs_of evs.
+Proof.
+  intros ls obs evs Hl. induction evs as [|a evs IH]; [reflexivity|].
+  cbn [flat_map notifs_of]. rewrite ee_app, map_app, IH. f_equal.
+  destruct a as [n fl r|v c]; [|reflexivity]. cbn [render].
+  rewrite ee_app, ee_listeners, (Hl (n_kind n)), ee_obs by (intro; exact I). reflexivity.
+Qed.
+
+Lemma listeners_nonempty : forall ls k, lst_all ls -> listeners_of k ls <> [].
+Proof. intros ls k Hl E. specialize (Hl k). rewrite E in Hl. discriminate. Qed.
+
+Definition fresh_for (n : notif) (evs : list aev) : Prop :=
+  Forall (fun m => notif_eqb n m = false) (notifs_of evs).
+
+Lemma take_group_same : forall n r L X,
+    take_group n (map (fun l => ENotif l n r) L ++ X) =
+    (L ++ fst (take_group n X), snd (take_group n X)).
+Proof.
+  intros n r L X. induction L as [|l L IH]; cbn [map app].
+  - destruct (take_group n X); reflexivity.
+  - cbn [take_group]. unfold same_notif. rewrite notif_eqb_refl, IH. reflexivity.
+Qed.
+
+Lemma take_group_fresh : forall ls obs n evs,
+    fresh_for n evs -> take_group n (flat_map (render ls obs) evs) = ([], flat_map (render ls obs) evs).
+Proof.
+  intros ls obs n evs. induction evs as [|a evs IH]; intro H; [reflexivity|].
+  destruct a as [m fl r|v c]; [|reflexivity].
+  unfold fresh_for in H. cbn [notifs_of flat_map app] in H. inversion H as [|? ? Hm Hr]; subst.
+  cbn [flat_map render]. destruct (listeners_of (n_kind m) ls) as [|l L].
+  - cbn [map app]. destruct obs as [|o os]; [cbn [map app]; apply IH; exact Hr|reflexivity].
+  - cbn [map app take_group]. unfold same_notif. rewrite Hm. reflexivity.
+Qed.
+
+Lemma take_group_obs : forall ls obs n (f : nat -> entry) evs,
+    (forall o, match f o with ENotif _ _ _ => False | _ => True end) ->
+    fresh_for n evs ->
+    take_group n (map f obs ++ flat_map (render ls obs) evs) = ([], map f obs ++ flat_map (render ls obs) evs).
+Proof.
+  intros ls obs n f evs Hf H. destruct obs as [|o os].
+  - cbn [map app]. apply take_group_fresh. exact H.
+  - cbn [map app]. specialize (Hf o). destruct (f o); try reflexivity. contradiction.
+Qed.
+
+Section Logs.
+  Variable ls : list (nkind * nat).
+  Variable obs : list nat.
+  Variable Hl : lst_all ls.
+
+  Lemma c20_skip_obs : forall (f : nat -> entry) os rest,
+      (forall o, match f o with ENotif _ _ _ => False | _ => True end) ->
+      (forall fuel, c20_log fuel ls rest = true) ->
+      forall fuel, c20_log fuel ls (map f os ++ rest) = true.
+  Proof.
+    intros f os rest Hf Hr. induction os as [|o os IH]; intro fuel; [apply Hr|].
+    destruct fuel as [|fuel]; [reflexivity|]. cbn [map app c20_log].
+    specialize (Hf o). destruct (f o); try apply IH. contradiction.
+  Qed.
+
+  Lemma c20_log_render : forall evs,
+      nodupn (notifs_of evs) -> forall fuel, c20_log fuel ls (flat_map (render ls obs) evs) = true.
+  Proof.
+    induction evs as [|a evs IH]; intros Hn fuel; [destruct fuel; reflexivity|].
+    destruct fuel as [|fuel]; [reflexivity|].
+    destruct a as [n fl r|v c].
+    - cbn [notifs_of flat_map app nodupn] in Hn. destruct Hn as [Hf Hn].
+      cbn [flat_map render]. pose proof (listeners_nonempty ls (n_kind n) Hl) as Hne.
+      destruct (listeners_of (n_kind n) ls) as [|l L] eqn:EL; [congruence|].
+      cbn [map app]. rewrite <- !app_assoc. cbn [c20_log].
+      rewrite take_group_same, take_group_obs; [|intro; exact I|exact Hf].
+      cbn [fst snd]. rewrite app_nil_r, EL, list_eqb_nat_refl. cbn [andb].
+      apply c20_skip_obs; [intro; exact I|]. apply IH. exact Hn.
+    - cbn [flat_map render app c20_log]. apply IH. exact Hn.
+  Qed.
+
+  (* the observer entries after a notification group *)
+  Lemma take_obs_render : forall evs,
+      take_obs (flat_map (render ls obs) evs) = ([], flat_map (render ls obs) evs).
+  Proof.
+    intros [|a evs]; [reflexivity|]. destruct a as [n fl r|v c]; [|reflexivity].
+    cbn [flat_map render]. pose proof (listeners_nonempty ls (n_kind n) Hl) as Hne.
+    destruct (listeners_of (n_kind n) ls) as [|l L]; [congruence|]. reflexivity.
+  Qed.
+
+  Lemma take_obs_app : forall k nm id fl os R,
+      take_obs R = ([], R) ->
+      take_obs (map (fun o => EObs o k nm id fl) os ++ R) = (map (fun o => (o, k, nm, id, fl)) os, R).
+  Proof.
+    intros k nm id fl os R HR. induction os as [|o os IH]; [exact HR|].
+    cbn [map app take_obs]. rewrite IH. reflexivity.
+  Qed.
+
+  Lemma obs_matches_refl : forall n fl os,
+      obs_matches n fl os (map (fun o => (o, n_kind n, n_name n, n_id n, fl)) os) = true.
+  Proof.
+    intros n fl os. induction os as [|o os IH]; [reflexivity|]. cbn [map obs_matches].
+    rewrite !Nat.eqb_refl, nkind_eqb_refl, eqb_reflx, IH. reflexivity.
+  Qed.
+
+  Lemma c17_log_render : forall evs,
+      nodupn (notifs_of evs) -> Forall flag_ok evs ->
+      forall fuel, c17_log fuel obs (flat_map (render ls obs) evs) = true.
+  Proof.
+    induction evs as [|a evs IH]; intros Hn Hfl fuel; [destruct fuel; reflexivity|].
+    destruct fuel as [|fuel]; [reflexivity|].
+    inversion Hfl as [|? ? Ha Hfl']; subst.
+    destruct a as [n fl r|v c].
+    - cbn [notifs_of flat_map app nodupn] in Hn. destruct Hn as [Hf Hn]. cbn [flag_ok] in Ha.
+      cbn [flat_map render]. pose proof (listeners_nonempty ls (n_kind n) Hl) as Hne.
+      destruct (listeners_of (n_kind n) ls) as [|l L] eqn:EL; [congruence|].
+      cbn [map app]. rewrite <- !app_assoc. cbn [c17_log].
+      rewrite take_group_same, take_group_obs; [|intro; exact I|exact Hf].
+      cbn [fst snd]. rewrite take_obs_app by apply take_obs_render.
+      rewrite <- Ha, obs_matches_refl. cbn [andb]. apply IH; assumption.
+    - cbn [flat_map render app c17_log]. apply IH; assumption.
+  Qed.
+End Logs.
+
+Section C20C17.
+  Variable orc : oracle.
+  Variable imm : nat -> bool.
+  Variable body : list xstmt.
+
+  (* the log of one call, as the monitors see it *)
+  Lemma call_log : forall f s c b s',
+      api_call orc imm f body s c = Ok (b, s') -> lst_all (g_ls (sc_g s)) -> call_nodup (observe b s') ->
+      exists evs, cr_log (observe b s') = flat_map (render (g_ls (sc_g s)) (g_obs (sc_g s))) evs
+                  /\ nodupn (notifs_of evs) /\ Forall flag_ok evs.
+  Proof.
+    intros f s c b s' H Hl Hn. destruct (api_shape _ _ _ _ _ _ _ _ H) as (((evs & E1 & E2) & _) & _).
+    exists evs. split; [exact E1|]. split; [|exact E2].
+    unfold call_nodup in Hn. rewrite E1, ee_render in Hn by exact Hl. exact Hn.
+  Qed.
+
+  Lemma c20_run_ref : forall f cs s tr,
+      lst_all (g_ls (sc_g s)) -> run_script orc imm f body s cs = Ok tr -> Forall call_nodup tr ->
+      c20_run (g_ls (sc_g s)) cs tr = true.
+  Proof.
+    intros f cs. induction cs as [|c cs IH]; intros s tr Hl H Hn; cbn [run_script] in H.
+    - inv H. reflexivity.
+    - destruct (api_call orc imm f body s c) as [[b s']| | |] eqn:E; try discriminate.
+      cbn [rbind] in H.
+      destruct (run_script orc imm f body s' cs) as [t| | |] eqn:E2; try discriminate.
+      cbn [rbind] in H. inv H. inversion Hn as [|? ? Hn1 Hn2]; subst.
+      destruct (api_acc orc imm body _ _ _ _ _ E Hl) as (_ & Hl').
+      destruct (api_shape _ _ _ _ _ _ _ _ E) as ((_ & S1 & S2) & S3 & _).
+      specialize (IH s' t Hl' E2 Hn2). rewrite S3 in IH.
+      destruct (call_log _ _ _ _ _ E Hl Hn1) as (evs & L1 & L2 & _).
+      assert (G : c20_log (S (List.length (cr_log (observe b s')))) (g_ls (sc_g s)) (cr_log (observe b s')) = true).
+      { rewrite L1. apply c20_log_render; assumption. }
+      cbn [c20_run].
+      destruct c as [|id| |k l|o|o]; cbn [next_ls] in IH; try (rewrite G, IH; reflexivity).
+      rewrite (S2 k l eq_refl), eqb_reflx, (S1 eq_refl). cbn [andb]. exact IH.
+  Qed.
+
+  Lemma c17_run_ref : forall f cs s tr,
+      lst_all (g_ls (sc_g s)) -> run_script orc imm f body s cs = Ok tr -> Forall call_nodup tr ->
+      c17_run (g_obs (sc_g s)) cs tr = true.
+  Proof.
+    intros f cs. induction cs as [|c cs IH]; intros s tr Hl H Hn; cbn [run_script] in H.
+    - inv H. reflexivity.
+    - destruct (api_call orc imm f body s c) as [[b s']| | |] eqn:E; try discriminate.
+      cbn [rbind] in H.
+      destruct (run_script orc imm f body s' cs) as [t| | |] eqn:E2; try discriminate.
+      cbn [rbind] in H. inv H. inversion Hn as [|? ? Hn1 Hn2]; subst.
+      destruct (api_acc orc imm body _ _ _ _ _ E Hl) as (_ & Hl').
+      destruct (api_shape _ _ _ _ _ _ _ _ E) as (_ & _ & S4).
+      specialize (IH s' t Hl' E2 Hn2). rewrite S4 in IH.
+      destruct (call_log _ _ _ _ _ E Hl Hn1) as (evs & L1 & L2 & L3).
+      assert (G : c17_log (S (List.length (cr_log (observe b s')))) (g_obs (sc_g s)) (cr_log (observe b s')) = true).
+      { rewrite L1. apply (c17_log_render (g_ls (sc_g s))); assumption. }
+      cbn [c17_run].
+      destruct c as [|id| |k l|o|o]; cbn [next_obs] in IH; try (rewrite G, IH; reflexivity).
+      + exact IH.
+      + cbn [api_call] in E. change (g_obs (clear_log (sc_g s))) with (g_obs (sc_g s)) in E.
+        destruct (remove_first (Nat.eqb o) (g_obs (sc_g s))) as [l|]; [|discriminate]. exact IH.
+  Qed.
+End C20C17.
+
+Theorem C20_monitor_ref : forall orc imm body f cs tr,
+    run_script orc imm f body sched0 cs = Ok tr -> holds_C20 cs tr = true.
+Proof.
+  intros orc imm body f cs tr H. unfold holds_C20.
+  exact (c20_run_ref orc imm body f cs sched0 tr lst_all_default H (ref_call_nodup _ _ _ _ _ _ H)).
+Qed.
+
+Theorem C17_monitor_ref : forall orc imm body f cs tr,
+    run_script orc imm f body sched0 cs = Ok tr -> holds_C17 cs tr = true.
+Proof.
+  intros orc imm body f cs tr H. unfold holds_C17.
+  exact (c17_run_ref orc imm body f cs sched0 tr lst_all_default H (ref_call_nodup _ _ _ _ _ _ H)).
+Qed.
+
+(* ===================================================================== *)
+(* 9. the same statements for `run` cases of the harness, and a witness    *)
+(* ===================================================================== *)
+Lemma run_ref_script : forall (c : runcase) tr,
+    run_ref c = Ok tr ->
+    exists body, run_script (orc_of (rc_vals c)) (imm_of (rc_imm c)) default_fuel body sched0 (rc_script c) = Ok tr.
+Proof.
+  intros c tr H. unfold run_ref in H.
+  destruct (existsb _ (rc_react c)); [discriminate|].
+  destruct (unfold_program (p_tasks (rc_prog c)) 200) as [body| | |]; try discriminate.
+  cbn [rbind] in H. exists body. exact H.
+Qed.
+
+Theorem C08_monitor_ref_programs : forall (c : runcase) tr, run_ref c = Ok tr -> mon_C08 c tr = true.
+Proof. intros c tr H. destruct (run_ref_script c tr H) as (body & Hb). eapply C08_monitor_ref; exact Hb. Qed.
+
+Theorem C14_monitor_ref_programs : forall (c : runcase) tr, run_ref c = Ok tr -> mon_C14 c tr = true.
+Proof. intros c tr H. destruct (run_ref_script c tr H) as (body & Hb). eapply C14_monitor_ref; exact Hb. Qed.
+
+Theorem C20_monitor_ref_programs : forall (c : runcase) tr, run_ref c = Ok tr -> mon_C20 c tr = true.
+Proof. intros c tr H. destruct (run_ref_script c tr H) as (body & Hb). eapply C20_monitor_ref; exact Hb. Qed.
+
+Theorem C17_monitor_ref_programs : forall (c : runcase) tr, run_ref c = Ok tr -> mon_C17 c tr = true.
+Proof. intros c tr H. destruct (run_ref_script c tr H) as (body & Hb). eapply C17_monitor_ref; exact Hb. Qed.
+
+(* the verdict field "the monitor accepts the model's trace" of the harness' judgement is
+   constantly true for these monitors: a False there can only come from a broken build *)
+Theorem judge_model_accepts : forall mon,
+    (forall c tr, run_ref c = Ok tr -> mon c tr = true) ->
+    forall p c impl, v_mon_model (judge_with p mon c impl) = true.
+Proof.
+  intros mon Hm p c impl. unfold judge_with. destruct (run_ref c) as [tr| | |] eqn:E; cbn [v_mon_model]; auto.
+Qed.
+
+Definition judge_model_accepts_C08 := judge_model_accepts mon_C08 C08_monitor_ref_programs.
+Definition judge_model_accepts_C14 := judge_model_accepts mon_C14 C14_monitor_ref_programs.
+Definition judge_model_accepts_C20 := judge_model_accepts mon_C20 C20_monitor_ref_programs.
+Definition judge_model_accepts_C17 := judge_model_accepts mon_C17 C17_monitor_ref_programs.
+
+(* the hypotheses are inhabited: a run through all statement kinds (16 API calls, one service
+   completed from inside its own notification, rejected and repeated completions, junk) that
+   reaches the end of the order *)
+Theorem monitors_ref_nonvacuous :
+  exists tr, run_ref ex_case = Ok tr /\ existsb (fun r => cr_final r) tr = true
+             /\ existsb (fun r => negb (cr_ret r)) tr = true
+             /\ mon_C08 ex_case tr = true /\ mon_C14 ex_case tr = true
+             /\ mon_C20 ex_case tr = true /\ mon_C17 ex_case tr = true.
+Proof.
+  destruct ex_runs as (tr & H & _ & Hf). exists tr. split; [exact H|]. split; [exact Hf|]. split.
+  - revert H. vm_compute. intro H. inv H. reflexivity.
+  - repeat split; [apply C08_monitor_ref_programs|apply C14_monitor_ref_programs
+                   |apply C20_monitor_ref_programs|apply C17_monitor_ref_programs]; exact H.
+Qed.
+
+(* all six monitors of Monitors.v at once (holds_C01: RefC01, holds_C07: RefC07) *)
+Theorem monitors_ref_all : forall orc imm body f cs tr,
+    run_script orc imm f body sched0 cs = Ok tr ->
+    holds_C01 tr = true /\ holds_C07 cs tr = true /\ holds_C08 imm cs tr = true
+    /\ holds_C14 cs tr = true /\ holds_C17 cs tr = true /\ holds_C20 cs tr = true.
+Proof.
+  intros orc imm body f cs tr H.
+  split; [exact (C01_ref orc imm body f cs tr H)|].
+  split; [exact (C07_ref orc imm body f cs tr H)|].
+  split; [exact (C08_monitor_ref orc imm body f cs tr H)|].
+  split; [exact (C14_monitor_ref orc imm body f cs tr H)|].
+  split; [exact (C17_monitor_ref orc imm body f cs tr H)|exact (C20_monitor_ref orc imm body f cs tr H)].
+Qed.
+
+(* ===================================================================== *)
+(* 10. the monitors are not trivially true: tampered copies of a reference *)
+(*     trace are rejected (evaluated)                                      *)
+(* ===================================================================== *)
+Definition ex_trace : list callrec := match run_ref ex_case with Ok t => t | _ => [] end.
+
+Fixpoint upd {A} (i : nat) (f : A -> A) (l : list A) : list A :=
+  match l, i with
+  | [], _ => []
+  | x :: t, O => f x :: t
+  | x :: t, S j => x :: upd j f t
+  end.
+
+Definition set_ret (b : bool) (r : callrec) : callrec :=
+  {| cr_ret := b; cr_log := cr_log r; cr_running := cr_running r; cr_awaited := cr_awaited r;
+     cr_final := cr_final r |}.
+Definition set_log (f : list entry -> list entry) (r : callrec) : callrec :=
+  {| cr_ret := cr_ret r; cr_log := f (cr_log r); cr_running := cr_running r; cr_awaited := cr_awaited r;
+     cr_final := cr_final r |}.
+
+(* a completion sent before the start, reported as accepted *)
+Example C08_rejects_wrong_return :
+  mon_C08 ex_case ex_trace = true /\ mon_C08 ex_case (upd 0 (set_ret true) ex_trace) = false.
+Proof. split; vm_compute; reflexivity. Qed.
+
+(* an accepted completion whose identifier was never announced (the script names another one) *)
+Example C14_rejects_unannounced :
+  holds_C14 (rc_script ex_case) ex_trace = true
+  /\ accepted_announced [] (upd 2 (fun _ => AFinish 99) (rc_script ex_case)) ex_trace = false.
+Proof. split; vm_compute; reflexivity. Qed.
+
+(* a function invoked twice for one notification *)
+Example C20_rejects_double_invocation :
+  mon_C20 ex_case ex_trace = true
+  /\ mon_C20 ex_case (upd 1 (set_log (fun l => match l with e :: t => e :: e :: t | [] => [] end)) ex_trace) = false.
+Proof. split; vm_compute; reflexivity. Qed.
+
+(* an observer entry nobody is attached for *)
+Example C17_rejects_stray_observer_entry :
+  mon_C17 ex_case ex_trace = true
+  /\ mon_C17 ex_case (upd 1 (set_log (fun l => l ++ [EObs 7 TS 0 0 false])) ex_trace) = false.
+Proof. split; vm_compute; reflexivity. Qed.
